@@ -179,6 +179,10 @@ def AbsSt.res (s : AbsSt) (x : ExprResult) : DTree :=
   | .prim v => .lit v
   | .reg r => s.reg r
 
+/-- the reading has a tree for register `q` (an earlier instruction wrote it, or it is the alias
+register after an earlier call / field read) -/
+def AbsSt.bound (s : AbsSt) (q : Nat) : Bool := (s.env.find? (·.1 == q)).isSome
+
 def AbsSt.declIdx (s : AbsSt) (n : Name) : Nat := (s.decls.findIdx? (· == n)).getD 999999
 
 def AbsSt.emit (s : AbsSt) (d : DStmt) : AbsSt := { s with out := s.out ++ [d] }
@@ -221,6 +225,11 @@ def AbsSt.init : AbsSt := { env := [], decls := [], out := [] }
 def abstractFold (stack : List Instr) : AbsSt := stack.foldl abstractStep AbsSt.init
 
 def abstractStack (stack : List Instr) : List DStmt := (abstractFold stack).out
+
+/-- every register an instruction reads has a tree in the reading of the instructions before it -/
+def readsBound : List Instr → AbsSt → Bool
+  | [], _ => true
+  | i :: rest, A => i.reads.all A.bound && readsBound rest (abstractStep A i)
 
 /-! ### The denotation of the source -/
 
